@@ -2033,7 +2033,7 @@ fn emit_yaml_value_at_depth(
             // and yq preserves a document literal's exact text.
             literal.to_string()
         }
-        OwnedValue::String(s) => yaml_quote_string_with_style(s, comments.style()),
+        OwnedValue::String(s) => yaml_quote_string_with_style(s, comments.style(), in_flow),
         OwnedValue::Array(arr) => {
             if arr.is_empty() {
                 "[]".to_string()
@@ -2175,7 +2175,7 @@ fn emit_yaml_value_at_depth(
                 let entries: Vec<_> = obj
                     .iter()
                     .map(|(k, v)| {
-                        let key = yaml_quote_key(k);
+                        let key = yaml_quote_key(k, true);
                         let field_comments = comments.field(k);
                         let val = emit_yaml_value_at_depth(
                             v,
@@ -2204,7 +2204,7 @@ fn emit_yaml_value_at_depth(
                 let items: Vec<_> = entries
                     .iter()
                     .map(|(k, v)| {
-                        let key = yaml_quote_key(k);
+                        let key = yaml_quote_key(k, false);
                         let field_comments = comments.field(k);
                         let comment_suffix = trailing_comment_suffix(field_comments);
                         let val_indent = format!("{indent}{}", config.indent_str);
@@ -2283,8 +2283,16 @@ fn emit_yaml_value_at_depth(
     }
 }
 
-/// Quote a YAML string if needed.
-fn yaml_quote_string(s: &str) -> String {
+/// Whether `s` contains a flow indicator that would end (or split) a plain
+/// scalar written inside `[...]`/`{...}`: `[x, a,b]` reads back as three
+/// items, `[a]b]` does not parse at all.
+fn has_flow_terminator(s: &str) -> bool {
+    s.contains([',', ']', '}'])
+}
+
+/// Quote a YAML string if needed. `in_flow` says the scalar is written
+/// inside a flow collection, where `,`/`]`/`}` end a plain scalar.
+fn yaml_quote_string(s: &str, in_flow: bool) -> String {
     // Check if string needs quoting
     if s.is_empty() {
         return "''".to_string();
@@ -2293,6 +2301,16 @@ fn yaml_quote_string(s: &str) -> String {
     // Check for special YAML values that need quoting
     let lower = s.to_lowercase();
     let needs_quoting = lower == "null"
+        // Anything this crate's own loader resolves to a non-string when it
+        // is plain (`0x1F`, `0o17`, `+.inf`, ...) must stay a string on re-read.
+        || !matches!(resolve_plain(s), succinctly::yaml::ResolvedScalar::Str)
+        // A leading space is separation, not content, for a plain scalar.
+        || s.starts_with(' ')
+        // `,`/`]`/`}` are indicators: they cannot start a plain scalar.
+        || s.starts_with(',')
+        || s.starts_with(']')
+        || s.starts_with('}')
+        || in_flow && has_flow_terminator(s)
         || lower == "true"
         || lower == "false"
         || lower == "~"
@@ -2395,7 +2413,7 @@ fn can_single_quote(s: &str) -> bool {
 /// are block-scalar styles this DOM writer doesn't reproduce; see
 /// `CommentTree`'s own doc comment) falls back to the plain heuristic
 /// unchanged.
-fn yaml_quote_string_with_style(s: &str, style: &str) -> String {
+fn yaml_quote_string_with_style(s: &str, style: &str, in_flow: bool) -> String {
     // No empty-string special case needed here (unlike `yaml_quote_string`
     // below): every arm already renders `""` correctly on its own -
     // `yaml_double_quote_escaped`/`yaml_single_quote_escaped` produce
@@ -2407,12 +2425,12 @@ fn yaml_quote_string_with_style(s: &str, style: &str) -> String {
     match style {
         "single" if can_single_quote(s) => yaml_single_quote_escaped(s),
         "double" => yaml_double_quote_escaped(s),
-        _ => yaml_quote_string(s),
+        _ => yaml_quote_string(s, in_flow),
     }
 }
 
-/// Quote a YAML key if needed.
-fn yaml_quote_key(s: &str) -> String {
+/// Quote a YAML key if needed. `in_flow` as for [`yaml_quote_string`].
+fn yaml_quote_key(s: &str, in_flow: bool) -> String {
     // Keys have similar rules but are a bit more permissive
     if s.is_empty() {
         return "''".to_string();
@@ -2431,6 +2449,19 @@ fn yaml_quote_key(s: &str) -> String {
         || s.starts_with('*')
         || s.starts_with('&')
         || s.starts_with('!')
+        // Indicators that cannot start a plain scalar, and white space
+        // that would be read as separation rather than as part of the key.
+        || s.starts_with('|')
+        || s.starts_with('>')
+        || s.starts_with('%')
+        || s.starts_with('@')
+        || s.starts_with('`')
+        || s.starts_with(',')
+        || s.starts_with(']')
+        || s.starts_with('}')
+        || s.starts_with(' ')
+        || s.contains('\t')
+        || in_flow && has_flow_terminator(s)
         || s.ends_with(' ');
 
     if needs_quoting {
